@@ -2,20 +2,21 @@
 """try_seed.py <seed_id> [tier]  -> runs ./check <pid> against a scratch worktree of /repo with seeded/<seed_id>/patch.diff applied
 (OSVERIF_REPO), records the outcome in seeded/<seed_id>/meta.json."""
 import json, os, re, shutil, subprocess, sys, time
+VH = os.environ.get("VERIF_HOME", "/verif")   # run the check from an isolated copy of /verif while builders edit /verif
 sid = sys.argv[1]; tier = sys.argv[2] if len(sys.argv) > 2 else "quick"
 pid = sid.split("-")[0]
 d = f"/verif/seeded/{sid}"
 wt = f"/var/tmp/osv/mut-{sid}"
 subprocess.run(["git", "-C", "/repo", "worktree", "remove", "--force", wt], capture_output=True)
 subprocess.run(["git", "-C", "/repo", "worktree", "add", "--detach", wt, "HEAD"], check=True, capture_output=True)
-ev = f"/verif/evidence/{pid}.json"
+ev = f"{VH}/evidence/{pid}.json"
 ev_saved = open(ev).read() if os.path.exists(ev) else None     # the mutated run rewrites the evidence file: put it back afterwards
 try:
     if subprocess.run(["git", "-C", wt, "apply", os.path.join(d, "patch.diff")]).returncode != 0:
         subprocess.run(["git", "-C", wt, "apply", "--3way", os.path.join(d, "patch.diff")], check=True)
     t0 = time.time()
     env = dict(os.environ, OSVERIF_REPO=wt, VERIF_SEED=os.environ.get("VERIF_SEED", "0"))
-    p = subprocess.run(["/verif/check", pid, "--tier", tier], env=env, capture_output=True, text=True, cwd="/verif")
+    p = subprocess.run([f"{VH}/check", pid, "--tier", tier], env=env, capture_output=True, text=True, cwd=VH)
     lines = [l for l in p.stdout.splitlines() if l.startswith("VIOLATION") or l.startswith("  (") or l.startswith("KNOWN-FINDING") or l.startswith("[")]
     res = {"tier": tier, "exit": p.returncode, "wall_s": round(time.time() - t0), "lines": lines[:12],
            "detected": p.returncode == 1 and any(l.startswith("VIOLATION") for l in lines),
